@@ -104,6 +104,21 @@ func TestVerifReplay(t *testing.T) {
 				fmt.Println("REPLAY-CONFIRMED txseq24: the key's sequence number is not the 24-bit number on the wire; the response can never match")
 			}
 		}
+	case strings.Contains(m.Obligation, "UpdateNodeID#reg"):
+		// two associated nodes with one session each; a modification request for a session of smfA names smfB as
+		// the new node id (TS 29.244 7.5.4) and the handler calls UpdateNodeID(smfA's node, "smfB")
+		cfg := &factory.Config{Pfcp: &factory.Pfcp{Addr: "127.0.0.1", NodeID: "127.0.0.1", RetransTimeout: time.Hour, MaxRetrans: 1}}
+		s := NewPfcpServer(cfg, nil)
+		a := s.NewNode("smfA", &net.UDPAddr{IP: net.IPv4(10, 0, 0, 1), Port: 8805}, nil)
+		b := s.NewNode("smfB", &net.UDPAddr{IP: net.IPv4(10, 0, 0, 2), Port: 8805}, nil)
+		s.rnodes["smfA"], s.rnodes["smfB"] = a, b
+		sa, sb := a.NewSess(1), b.NewSess(2)
+		s.UpdateNodeID(sa.rnode, "smfB")
+		fmt.Printf("after UpdateNodeID(smfA -> smfB): rnodes[%q] is smfA's node: %v; session %d of the original smfB still live: %v\n",
+			sb.rnode.ID, s.rnodes[sb.rnode.ID] == a, sb.LocalID, s.lnode.sess[sb.LocalID-1] == sb)
+		if s.rnodes[sb.rnode.ID] != sb.rnode && s.lnode.sess[sb.LocalID-1] == sb {
+			fmt.Println("REPLAY-CONFIRMED reg: a live session's node is no longer the node registered under its id; re-association of that id will not remove the session and will remove another node's sessions")
+		}
 	default:
 		fmt.Println("no replay case for", m.Obligation)
 	}
